@@ -880,9 +880,9 @@ uint64_t default_runs(const std::string& prop, const std::string& tier) {
     const char* p;
     uint64_t q, t;
   };
-  static const R tab[] = {{"C01", 480, 4800},  {"C02", 600, 2400 + 384}, {"C03", 288, 2400}, {"C04", 120, 960},  {"C05", 480, 4800}, {"C06", 192, 1920},
-                          {"C07", 144, 288},   {"C09", 480, 2400},       {"C10", 480, 1920},  {"C11", 96, 192},   {"C12", 144, 288 + 288},  {"C13", 361, 2401},
-                          {"C14", 480, 600 + 4 * 507}, {"C15", 480, 7200},  {"C16", 288, 1920},  {"C17", 13, 37}, {"C18", 180, 60 * 16 + 240}};
+  static const R tab[] = {{"C01", 480, 4800},  {"C02", 600, 2400 + 384}, {"C03", 288, 2400}, {"C04", 120, 960},  {"C05", 480, 4800}, {"C06", 480, 2880},
+                          {"C07", 144, 288},   {"C09", 480, 2400},       {"C10", 480, 1920},  {"C11", 96, 192},   {"C12", 144, 288 + 288},  {"C13", 721, 3601},
+                          {"C14", 1440, 600 + 4 * 507}, {"C15", 480, 7200},  {"C16", 288, 1920},  {"C17", 13, 37}, {"C18", 180, 60 * 16 + 240}};
   for (auto& r : tab)
     if (prop == r.p)
       return th ? r.t : r.q;
